@@ -98,6 +98,11 @@ mod vharness {
         let t = if upper { &HEXU } else { &HEXL };
         out[at] = t[(cu >> 12) as usize & 15]; out[at + 1] = t[(cu >> 8) as usize & 15]; out[at + 2] = t[(cu >> 4) as usize & 15]; out[at + 3] = t[cu as usize & 15];
     }
+    /// loop-free: is `a` exactly the first n (<= 8) bytes of w?  (keeps the harness's own loops out of the global unwinding bound)
+    fn same8(a: &[u8], w: &[u8; 8], n: usize) -> bool {
+        a.len() == n && (n < 1 || a[0] == w[0]) && (n < 2 || a[1] == w[1]) && (n < 3 || a[2] == w[2]) && (n < 4 || a[3] == w[3])
+            && (n < 5 || a[4] == w[4]) && (n < 6 || a[5] == w[5]) && (n < 7 || a[6] == w[6]) && (n < 8 || a[7] == w[7])
+    }
     fn is_sur(cu: u16) -> bool { cu >= 0xD800 && cu <= 0xDFFF }
     fn enc(buf: &mut [u8; 8], n: &mut usize, cp: u32) {
         if cp < 0x80 { buf[*n] = cp as u8; *n += 1; }
@@ -108,7 +113,7 @@ mod vharness {
 
     //@harness props=C20,C05,C01 strength=proof tier=thorough clause="std.parseJson on two adjacent \\uXXXX escapes, for EVERY pair of 16-bit code units and either hex-digit case (RFC 8259 section 7): a non-surrogate unit is that code point and the next escape is decoded independently; a high surrogate followed by a low surrogate is the one supplementary code point; every other surrogate combination is rejected; every VALID document of this shape is accepted" timeout=1200 replay=json_unicode_pair
     #[kani::proof]
-    #[kani::unwind(9)]
+    #[kani::unwind(4)]
     fn json_string_unicode_escape_pair() {
         let (cu1, cu2): (u16, u16) = (kani::any(), kani::any());
         let upper: bool = kani::any();
@@ -125,7 +130,7 @@ mod vharness {
             enc(&mut want, &mut n, 0x10000 + (((cu1 - 0xD800) as u32) << 10) + (cu2 - 0xDC00) as u32);
         } else { want_ok = false; }
         match r {
-            Ok(Some(s)) => { assert!(want_ok, "C20:jsonlex:invalid-surrogate-combination-is-rejected"); assert!(same(s.as_bytes(), &want[..n]), "C20:jsonlex:unicode-escapes-decode-to-exactly-their-code-points"); assert!(lx.rem.is_empty(), "C20:jsonlex:string-is-consumed-to-its-closing-quote-columns-count-characters"); }
+            Ok(Some(s)) => { assert!(want_ok, "C20:jsonlex:invalid-surrogate-combination-is-rejected"); assert!(same8(s.as_bytes(), &want, n), "C20:jsonlex:unicode-escapes-decode-to-exactly-their-code-points"); assert!(lx.rem.is_empty(), "C20:jsonlex:string-is-consumed-to-its-closing-quote-columns-count-characters"); }
             Ok(None) => assert!(false, "C20:jsonlex:a-quoted-string-is-a-string"),
             Err(e) => { assert!(!want_ok, "C20:jsonlex:valid-escape-pairs-are-accepted"); assert!(matches!(e.kind, ParseErrorKind::InvalidStringEscape), "C20:jsonlex:unknown-escape-is-an-invalid-escape-error"); }
         }
@@ -133,7 +138,7 @@ mod vharness {
 
     //@harness props=C20,C05,C01 strength=proof clause="std.parseJson on ONE \\uXXXX escape, EVERY 16-bit code unit, either hex case: a non-surrogate unit decodes to that code point, a surrogate that is not followed by another escape is rejected" timeout=900
     #[kani::proof]
-    #[kani::unwind(6)]
+    #[kani::unwind(4)]
     fn json_string_unicode_escape_single() {
         let cu1: u16 = kani::any();
         let upper: bool = kani::any();
@@ -145,7 +150,7 @@ mod vharness {
         let mut want = [0u8; 8]; let mut n = 0usize;
         if !is_sur(cu1) { enc(&mut want, &mut n, cu1 as u32); }
         match r {
-            Ok(Some(s)) => { assert!(!is_sur(cu1), "C20:jsonlex:invalid-surrogate-combination-is-rejected"); assert!(same(s.as_bytes(), &want[..n]), "C20:jsonlex:unicode-escapes-decode-to-exactly-their-code-points"); }
+            Ok(Some(s)) => { assert!(!is_sur(cu1), "C20:jsonlex:invalid-surrogate-combination-is-rejected"); assert!(same8(s.as_bytes(), &want, n), "C20:jsonlex:unicode-escapes-decode-to-exactly-their-code-points"); }
             Ok(None) => assert!(false, "C20:jsonlex:a-quoted-string-is-a-string"),
             Err(e) => { assert!(is_sur(cu1), "C20:jsonlex:valid-escape-pairs-are-accepted"); assert!(matches!(e.kind, ParseErrorKind::InvalidStringEscape), "C20:jsonlex:unknown-escape-is-an-invalid-escape-error"); }
         }
@@ -153,7 +158,7 @@ mod vharness {
 
     //@harness props=C20,C05,C01 strength=proof clause="std.parseJson on \\uXXXX\\uYYYY whose first unit is ANY surrogate (U+D800..U+DFFF, all 2048) and whose second unit is ANY 16-bit value (lower-case hex): accepted exactly when it is a high surrogate followed by a low surrogate, and then decodes to 0x10000 + ((hi - 0xD800) << 10) + (lo - 0xDC00); every lead surrogate D800..DBFF is accepted with every trail" timeout=1200 replay=json_unicode_pair
     #[kani::proof]
-    #[kani::unwind(9)]
+    #[kani::unwind(4)]
     fn json_string_surrogate_pair() {
         let lo11: u16 = kani::any(); kani::assume(lo11 < 0x800);
         let cu1: u16 = 0xD800 | lo11;
@@ -169,7 +174,7 @@ mod vharness {
         let mut want = [0u8; 8]; let mut n = 0usize;
         if want_ok { enc(&mut want, &mut n, 0x10000 + (((cu1 - 0xD800) as u32) << 10) + (cu2 - 0xDC00) as u32); }
         match r {
-            Ok(Some(s)) => { assert!(want_ok, "C20:jsonlex:invalid-surrogate-combination-is-rejected"); assert!(same(s.as_bytes(), &want[..n]), "C20:jsonlex:unicode-escapes-decode-to-exactly-their-code-points"); }
+            Ok(Some(s)) => { assert!(want_ok, "C20:jsonlex:invalid-surrogate-combination-is-rejected"); assert!(same8(s.as_bytes(), &want, n), "C20:jsonlex:unicode-escapes-decode-to-exactly-their-code-points"); }
             Ok(None) => assert!(false, "C20:jsonlex:a-quoted-string-is-a-string"),
             Err(e) => { assert!(!want_ok, "C20:jsonlex:valid-escape-pairs-are-accepted"); }
         }
